@@ -335,7 +335,25 @@ def gcc_validate(ctx, rng, work):
         macros = {m.group(1) for m in re.finditer(r"^#define (\w+)", p.stdout, re.M)}
         want = {re.match(r"\w+", x).group(0) for x in d}
         user = {x for x in macros if x in {"FOO", "FOO2", "BAR", "NEG", "EMPTY", "F"}}
-        undef = {argv[j + 1] for j, a in enumerate(argv[:-1]) if a == "-U"} | {a[2:] for a in argv if a.startswith("-U") and len(a) > 2}
+        # -D and -U are processed in command-line order
+        live = set()
+        j = 0
+        while j < len(argv):
+            a = argv[j]
+            if a in ("-D", "-U") and j + 1 < len(argv):
+                nm = re.match(r"\w+", argv[j + 1]).group(0)
+                (live.add if a == "-D" else live.discard)(nm)
+                j += 2
+            elif a.startswith("-D") or a.startswith("-U"):
+                nm = re.match(r"\w+", a[2:]).group(0)
+                (live.add if a[1] == "D" else live.discard)(nm)
+                j += 1
+            elif a in argmodel.SEPARATE or a in argmodel.MODELLED:
+                j += 2
+            else:
+                j += 1
+        want = live
+        undef = set()
         inc_macros = {"FROM_PRE", "FROM_CFG"} & macros
         want_inc = {"FROM_" + os.path.basename(f)[:-2].upper() for f in files}
         m = re.search(r'#include "\.\.\." search starts here:\n(.*?)#include <\.\.\.> search starts here:\n(.*?)End of search list', p.stderr, re.S)
